@@ -5,6 +5,8 @@ COMMON = ['harness/common/vh.c']
 HARNESS = {
     'bits': dict(srcs=['harness/corelab/bits.c'] + COMMON),
     'block': dict(srcs=['harness/corelab/block.c'] + COMMON),
+    'udictlab': dict(srcs=['harness/corelab/udictlab.c'] + COMMON),
+    'clocklab': dict(srcs=['harness/corelab/clocklab.c'] + COMMON),
     'picsound': dict(srcs=['harness/corelab/picsound.c', 'harness/common/cumem.c'] + COMMON),
 }
 
@@ -145,5 +147,58 @@ PROPS['C02'] = dict(
              require=['pic.write_windows', 'c02.pic_refusal_checked',
                       'c02.snd_refusal_checked', 'pic.block_from_pic',
                       'snd.block_from_sound']),
+    ],
+)
+
+PROPS['C10'] = dict(
+    engine='corelab',
+    technique='runtime monitoring: ordered-map reference model; every key '
+              're-read through its typed getter, absent keys probed and full '
+              'iteration compared after every operation; ASan exact-size heap',
+    level_text='Model-based randomised testing of udict_inline through the '
+               'udict_* API and the uref_attr_* layer: all 10 base types, the '
+               'shorthand types, names that are prefixes of one another, '
+               'value sizes up to the 16-bit TLV limit, aliased values, '
+               'dup/copy/import/cmp, 6 manager configurations.',
+    level_note=SAN_NOTE + 'assert-guarded preconditions bound the generator '
+               '(INT64_MIN, TLV length > 65535).',
+    rule='case = 40 operations on up to 4 dictionaries; distinct = hash of '
+         'the operation sequence; every case is non-trivial (full lookup + '
+         'iteration comparison after each operation)',
+    assumptions=['INT64_MIN and values longer than the 16-bit TLV length are '
+                 'outside the asserted domain and not generated'],
+    jobs=[
+        dict(name='udict', bin='udictlab', variant='asan', quick=60000,
+             thorough=3000000,
+             require=['set.aliased', 'case.max_size_value', 'op.import',
+                      'op.cmp_equal', 'get.absent']),
+    ],
+)
+
+PROPS['C11'] = dict(
+    engine='corelab',
+    technique='runtime monitoring: metamorphic relations (dts = cr + delay, '
+              'pts = dts + delay, rebase / read / dup invariance, set-get, '
+              'rap guard) + independent modular-arithmetic reference model '
+              'after every operation',
+    level_text='Randomised sequences (1-30 ops) of set / rebase / delete / add '
+               '/ delay setters / set_rap / dup over the three clock domains '
+               'with boundary dates (0, 2^33, 2^63, 2^64-2, unset); every '
+               'getter is checked for purity and all 12 views are compared '
+               'with the statement identities and with a reference model.',
+    level_note=SAN_NOTE + 'UINT64_MAX is the documented "unset" value for '
+               'delays; a delay that happens to equal it is unset in the '
+               'model too.',
+    rule='case = sequence of 1-30 operations on one uref; non-trivial = '
+         'sequence during which at least 6 views were readable; distinct = '
+         'hash of the operation/value sequence',
+    assumptions=['delays are shared by the three domains (documented), so a '
+                 'set in one domain may move derived dates of another'],
+    jobs=[
+        dict(name='clock', bin='clocklab', variant='asan', quick=1000000,
+             thorough=50000000,
+             require=['identity.dts=cr+delay', 'identity.pts=dts+delay',
+                      'op.rebase_done', 'op.set_rap_ok', 'op.set_rap_refused',
+                      'op.dup']),
     ],
 )
